@@ -446,7 +446,7 @@ partial def isReady (tid : Nat) : M Bool := do
       return sibs.any fun s => s.state.isCompleted && b.needs.contains s.nid
     if b.isElse then
       if sibs.all (·.state.isSkip) then return true
-      if sibs.any fun s => s.state.isError || s.state.isSuccess || s.state.isAbort then
+      if sibs.any fun s => s.state.isCompleted && !s.state.isSkip then
         setState tid .skipped
     return false
   | _ => return true
